@@ -359,10 +359,42 @@ def r3_index_builder(ctx):
     sites = []
     for mod, qn in (("bionumpy.io.indexed_files", "open_indexed"), ("bionumpy.genomic_data.genome", "Genome.from_file")):
         fn = ix.func(mod, qn)
-        txt = u(fn.node)
-        ok = "if not os.path.isfile(index_file_name):" in txt and "buffer_type=IndexBuffer).write(" in txt and "create_index(path)" in txt and \
-             "index_file_name = path.with_suffix(path.suffix + '.fai')" in txt
-        ctx.ob(fn.where, "a missing .fai is created from create_index(path) with IndexBuffer next to the FASTA", ok, "", key=f"C17-R3|write|{qn}")
+        from ..cfg import CFG as _CFG
+        from ..pend import edge_facts as _ef
+        g = _CFG(fn.node)
+        ws = []
+        for n in g.nodes:
+            if n.kind != "stmt":
+                continue
+            for c in walk_local(n.ast):
+                if isinstance(c, ast.Call) and isinstance(c.func, ast.Attribute) and c.func.attr == "write" and len(c.args) == 1:
+                    rc = c.func.value
+                    if isinstance(rc, ast.Name):
+                        defs = [x.value for x in body_walk(fn.node) if isinstance(x, ast.Assign) and u(x.targets[0]) == rc.id]
+                        defs += [it.context_expr for w in body_walk(fn.node) if isinstance(w, ast.With) for it in w.items if it.optional_vars is not None and u(it.optional_vars) == rc.id]
+                        rc = defs[0] if len(defs) == 1 else rc
+                    if isinstance(rc, ast.Call) and u(rc.func) in ("bnp_open", "bnp.open") and any(k.arg == "buffer_type" and u(k.value) == "IndexBuffer" for k in rc.keywords):
+                        ws.append((n, c, rc))
+        ctx.need(len(ws) == 1, f"{qn}: the write of the missing .fai was not found")
+        n, c, rc = ws[0]
+        facts = set()
+        for t, lab in g.guards(n):
+            facts |= _ef(t, lab)
+        ok = ("os.path.isfile(index_file_name)", False) in facts and u(rc.args[0]) == "index_file_name" and len(rc.args) >= 2 and getattr(rc.args[1], "value", None) == "w"
+        nm = [x.value for x in body_walk(fn.node) if isinstance(x, ast.Assign) and u(x.targets[0]) == "index_file_name"]
+        ok = ok and len(nm) == 1 and sym.canon(nm[0]) == sym.canon(sym.parse_expr("path.with_suffix(path.suffix + '.fai')"))
+        ctx.ob(fn.where, "a missing .fai (and only a missing one) is created with IndexBuffer next to the FASTA", ok, u(c)[:100], key=f"C17-R3|write|{qn}")
+        arg = c.args[0]
+        vals = [arg]
+        if isinstance(arg, ast.Name):
+            vals = [x.value for x in body_walk(fn.node) if isinstance(x, ast.Assign) and u(x.targets[0]) == arg.id]
+        whole = bool(vals) and all(sym.canon(v) == "create_index(path)" for v in vals)
+        if not whole:
+            cut = [v for v in vals if isinstance(v, ast.Subscript) or (isinstance(v, ast.Call) and u(v.func) in ("filter",))]
+            if not cut:
+                raise Unrecognised(f"{fn.where}: the .fai is written from `{'; '.join(u(v)[:60] for v in vals)}`")
+        ctx.ob(fn.where, "the .fai that is written is the COMPLETE index of the FASTA (create_index(path) as it is): the file is shared by every later opener, whatever "
+               "contigs this caller ignores", whole, "; ".join(u(v)[:80] for v in vals), key=f"C17-R3|write-complete|{qn}")
 
 
 # single-slot memos that take a parameter, confirmed by reading: (module, function, attribute) -> why the argument cannot vary
@@ -438,6 +470,14 @@ def _interval_order_restored(ctx):
     with ctx.only("permute", "permuted", "scanned"):
         r4_caches_and_permutations(ctx)    # sequences fetched in a sorted order are put back with the inverse permutation
 
+def _index_reads_every_record_once(ctx):
+    """The index is built from the chunks delivered by the chunk reader: the reader's end-of-file handling (terminating a last record without a line end) must
+    queue the missing terminator only -- not the pending bytes a second time (the last record would be indexed twice / with a wrong length)."""
+    from .c01 import r8_request_and_terminator
+    with ctx.only("NumpyFileReader.read_chunk"):
+        r8_request_and_terminator(ctx)
+
+
 RULES = [
     ("C17-R1", r1_roles),
     ("C17-R2", r2_byte_arithmetic),
@@ -446,4 +486,5 @@ RULES = [
     ("C17-T1", _through_time),
     ("C17-T2", _small_edits),
     ("C17-R5", _interval_order_restored),
+    ("C17-R6", _index_reads_every_record_once),
 ]
